@@ -5,6 +5,37 @@
 #include "arg.h"
 #include "cc.h"
 
+#ifdef CPROC_VERIF
+/* verification hook H1: one token per line (kind, preceded-by-space flag, spelling) under -E */
+static int
+verif_tokdump(void)
+{
+	const char *s;
+
+	if (!getenv("CPROC_VERIF_TOKDUMP"))
+		return 0;
+	while (tok.kind != TEOF) {
+		switch (tok.kind) {
+		case TIDENT:
+		case TNUMBER:
+		case TCHARCONST:
+		case TSTRINGLIT:
+		case TOTHER:
+			s = tok.lit;
+			break;
+		case TNEWLINE:
+			s = "";
+			break;
+		default:
+			s = tokstr[tok.kind];
+		}
+		printf("%d\t%d\t%s\n", (int)tok.kind, (int)tok.space, s ? s : "");
+		next();
+	}
+	return 1;
+}
+#endif
+
 static void
 usage(void)
 {
@@ -49,6 +80,10 @@ main(int argc, char *argv[])
 	ppinit();
 	if (pponly) {
 		ppflags |= PPNEWLINE;
+#ifdef CPROC_VERIF
+		if (verif_tokdump())
+			goto done;
+#endif
 		while (tok.kind != TEOF) {
 			tokenprint(&tok);
 			next();
@@ -64,6 +99,9 @@ main(int argc, char *argv[])
 		}
 		emittentativedefns();
 	}
+#ifdef CPROC_VERIF
+done:
+#endif
 
 	fflush(stdout);
 	if (ferror(stdout))
